@@ -946,7 +946,6 @@ def exec_monitor(sess):
             rec = _pointed(sess.trace[i - 1][1], op[1], op[2])
             v["record_without_status"] = rec is not None and "status" not in rec
             v["rerun_of_active_execution"] = _rerun_of_active(sess, op[1], op[2], i)
-            v["d8_trigger"] = bool(findings.TRIGGERS["D8"](sess, i))
             stg = [x for x in sess.trace[i - 1][1]["state"]["state"]["staged"]
                    if x["id"] == op[1] and x["route"] == op[2]]
             v["staged_entry"] = bool(stg)
@@ -993,11 +992,15 @@ def _exec_case(args):
         out["refused"] = sum(1 for _, o in sess.trace if o["raised"] is not None)
         vs = exec_monitor(sess)
         for v in vs:
-            for fid in known_ids:
-                trig = findings.TRIGGERS.get(fid)
-                if trig and trig(sess, v.get("step")):
-                    v["known"] = fid
-                    break
+            k = _classify_known(v)          # the exact candidates first, then the triggers of the listed findings
+            if k:
+                v["known"] = k
+            else:
+                for fid in known_ids:
+                    trig = findings.TRIGGERS.get(fid)
+                    if trig and trig(sess, v.get("step")):
+                        v["known"] = fid
+                        break
             v["ops"] = out["ops"][: v["step"] + 1]
         out["violations"] = vs
     except Exception:
@@ -1111,8 +1114,7 @@ def run(ctx):
     for kid in sorted(hit):
         first = [v for v in out["violations"] if v.get("known") == kid][0]
         out["known_lines"].append("%s %s (%d case(s) in this run; %s)"
-                                  % (kid, first["what"], hit[kid], (KNOWN_CANDIDATES[kid].__doc__ or "").split(":")[0]
-                                     .replace("\n", " ").strip()[:160]))
+                                  % (kid, first["what"], hit[kid], " ".join((KNOWN_CANDIDATES[kid].__doc__ or "").split(":")[0].split())[:200]))
     # keep one representative per known candidate in the evidence, drop the rest of the known ones
     keep, seen_known = [], set()
     for v in out["violations"]:
